@@ -14,6 +14,9 @@ ValidDur(D) == /\ SignUniform(D)
                /\ Le(Abs(DayTimeNs(D)), MaxTimeNs)
 DurNew(D) == IF ValidDur(D) THEN Ok(D) ELSE ErrRange
 
+\* Duration::is_time_within_range: every time field below its carry (a "balanced" time part)
+TimeFieldsInRange(D) == /\ Lt(Abs(D.h), FromInt(24)) /\ Lt(Abs(D.mi), FromInt(60)) /\ Lt(Abs(D.s), FromInt(60))
+                        /\ Lt(Abs(D.ms), FromInt(1000)) /\ Lt(Abs(D.us), FromInt(1000)) /\ Lt(Abs(D.ns), FromInt(1000))
 \* Duration from a property bag: the fields that are absent count as zero; a bag without any duration field is a TypeError
 DurKeySet == {"y", "mo", "w", "d", "h", "mi", "s", "ms", "us", "ns"}
 FillDur(p) == [k \in DurKeySet |-> IF k \in DOMAIN p THEN p[k] ELSE Zero]
